@@ -179,8 +179,16 @@ void run_case(Ctx& c) {
         } else if (surface == 1) {
             // ---------------- (b) signed messages with adversarial contents
             int k = r.a(0) % 3;
-            unsigned op = r.op() % 10;
+            unsigned op = r.op() % 11;
             switch (op) {
+                case 10: {
+                    // the adversarial peer disconnects: what it announced stays behind (pending fetches now have to dial the advertised endpoint)
+                    c.note("|evil-disconnects");
+                    evil.close();
+                    for (int w = 0; w < 400 && vnode::Access::sessions(node).is_connected(evil.id); ++w) std::this_thread::sleep_for(std::chrono::microseconds(500));
+                    c.label("announcer_disconnected");
+                    break;
+                }
                 case 0: case 1: case 2: {
                     std::string what;
                     auto m = adversarial_manifest(base[k], r, g, what);
@@ -193,10 +201,16 @@ void run_case(Ctx& c) {
                     a.peer_id = evil.id;
                     a.ttl = seconds((r.a(3) & 1) ? 4294967295LL : 60);
                     try { a.manifest_uri = protocol::encode_manifest(m); } catch (const std::exception&) { a.manifest_uri = "eph://"; }
+                    {   // advertised endpoint: later dialled by the fetch retry once the announcer's session is gone
+                        static const char* kEndpoints[] = {"", "", "127.0.0.1:9", "127.0.0.1:999999999999999999999999", "127.0.0.1:-1", "127.0.0.1:", ":9", "127.0.0.1:65536",
+                                                           "127.0.0.1:4294967296", "[::1]:9", "localhost:abc", "127.0.0.1:9:9", "127.0.0.1: 9", "127.0.0.1:0x10", "127.0.0.1:18446744073709551616", ":"};
+                        a.endpoint = kEndpoints[r.a(5) % 16];
+                        if (r.a(5) == 0xFF) a.endpoint = std::string(300, 'x') + ":1";
+                    }
                     if (r.a(4) & 1) a.assigned_shards = {m.shards.empty() ? std::uint8_t{1} : m.shards.front().index};
                     if (r.a(4) & 2) a.assigned_shards.assign(300, 1);
                     msg.payload = a;
-                    c.note("|announce(c%d,%s)", k, what.c_str());
+                    c.note("|announce(c%d,%s,ep='%s')", k, what.c_str(), a.endpoint.size() > 40 ? "long" : a.endpoint.c_str());
                     guarded(c, "transport-message-handler", [&] { evil.deliver(msg); });
                     c.nt("signed_message_reached_handler");
                     break;
